@@ -143,6 +143,7 @@ type Report struct {
 	Peers      []PeerReport      `json:"peers"`
 	Collisions []CollisionReport `json:"collisions"`
 	Orphans    []Event           `json:"orphans,omitempty"` // events that carried no known probe id
+	Complete   bool              `json:"complete"`          // false: the program died before all peers were done
 }
 
 // ---------- handler side ----------
@@ -555,7 +556,6 @@ type collideOut struct {
 
 // collideMain runs inside the grandchild: two registrations on one peer.
 func collideMain(c Collision, out string) {
-	erpc.SetLoggerLevel("CRITICAL") // so that the conflict message of erpc.Fatalf is printed
 	srv := erpc.NewPeer(erpc.PeerConfig{})
 	rc := &regCtx{peer: srv, cache: map[string]*erpc.SubRouter{}}
 	var o collideOut
@@ -582,7 +582,6 @@ func collideMain(c Collision, out string) {
 			}
 		}
 		if shared != "" {
-			erpc.SetLoggerLevel("OFF")
 			kind := "push"
 			if isCallKind(c.A.Kind) {
 				kind = "call"
@@ -684,7 +683,7 @@ func Main(p Program) {
 	currentMapper = p.Mapper
 	erpc.SetServiceMethodMapper(MapperFunc(p.Mapper))
 	erpc.SetDefaultBodyCodec(codec.ID_JSON)
-	erpc.SetLoggerLevel("OFF")
+	erpc.SetLoggerLevel("CRITICAL") // the message of erpc.Fatalf must be visible
 	if *collide >= 0 {
 		if *collide >= len(p.Collisions) {
 			os.Exit(4)
@@ -702,22 +701,31 @@ func Main(p Program) {
 	if i := strings.LastIndex(*out, "/"); i >= 0 {
 		dir = (*out)[:i]
 	}
-	colCh := make(chan []CollisionReport, 1)
-	go func() { colCh <- runCollisions(p.Collisions, dir) }()
+	write := func() {
+		evMu.Lock()
+		rep.Orphans = orphans
+		evMu.Unlock()
+		b, err := json.Marshal(rep)
+		if err == nil {
+			err = os.WriteFile(*out+".tmp", b, 0o644)
+		}
+		if err == nil {
+			err = os.Rename(*out+".tmp", *out)
+		}
+		if err != nil {
+			fmt.Fprintln(os.Stderr, "c10rt: "+err.Error())
+			os.Exit(4)
+		}
+	}
+	// the colliding pairs first (own processes); the report is written before the registrations of
+	// this process start, so that it survives an os.Exit from a refused registration
+	rep.Collisions = runCollisions(p.Collisions, dir)
+	write()
 	for i, ps := range p.Peers {
 		rep.Peers = append(rep.Peers, runPeer(i, ps))
+		write()
 	}
-	rep.Collisions = <-colCh
-	evMu.Lock()
-	rep.Orphans = orphans
-	evMu.Unlock()
-	b, err := json.Marshal(rep)
-	if err == nil {
-		err = os.WriteFile(*out, b, 0o644)
-	}
-	if err != nil {
-		fmt.Fprintln(os.Stderr, "c10rt: "+err.Error())
-		os.Exit(4)
-	}
+	rep.Complete = true
+	write()
 	os.Exit(0)
 }
